@@ -613,3 +613,148 @@ def describe_events(events) -> list:
         else:
             out.append(list(event))
     return out
+
+
+# ---------------------------------------------------------------------------------------------
+# Plan trees: nested and sibling plans with dependencies across plans (C01)
+# ---------------------------------------------------------------------------------------------
+
+
+@dataclass
+class PlanTree:
+    """plans: name -> {"parent", "note", "dropped"}; steps: list of dicts (name, plan, inp, out,
+    optional); sources: path -> (declaring plan, content)."""
+
+    plans: dict
+    steps: list
+    sources: dict
+    env: dict = field(default_factory=dict)
+
+    def label(self, plan: str) -> str:
+        return "./plan.py" if plan == "root" else f"./{plan}.py"
+
+    def file(self, plan: str) -> str:
+        return "plan.py" if plan == "root" else f"{plan}.py"
+
+    def active(self, plan: str) -> bool:
+        while plan is not None:
+            if self.plans[plan]["dropped"]:
+                return False
+            plan = self.plans[plan]["parent"]
+        return True
+
+    def script(self, plan: str) -> list:
+        actions = []
+        own = sorted(p for p, (owner, _) in self.sources.items() if owner == plan)
+        children = [c for c, info in self.plans.items() if info["parent"] == plan and not info["dropped"]]
+        if own or children:
+            actions.append(A.static(*own, *[self.file(c) for c in children]))
+        for step in self.steps:
+            if step["plan"] == plan:
+                actions.append(A.step(step["name"], inp=step["inp"], out=step["out"], optional=step["optional"]))
+        for child in children:
+            actions.append(A.step(self.label(child), inp=[self.file(child)], plan=True))
+        return actions
+
+    def render(self) -> Project:
+        scripts, files = {}, {}
+        for plan, info in self.plans.items():
+            script = self.script(plan)
+            scripts[self.label(plan)] = script
+            files[self.file(plan)] = plan_file(script, note=f"note {info['note']}")
+        for path, (_, content) in self.sources.items():
+            files[path] = content
+        return Project(scripts=scripts, files=files, env=dict(self.env))
+
+
+def gen_plan_tree(rng) -> PlanTree:
+    """A root plan with 2-4 more plans below it (siblings and one nesting level deeper), each
+    declaring its own sources; steps anywhere consume sources and outputs of any plan; some
+    producers are optional and needed only through a consumer in another plan."""
+    nplan = rng.randint(2, 4)
+    plans = {"root": {"parent": None, "note": 0, "dropped": False}}
+    for i in range(nplan):
+        parent = rng.choice(list(plans)) if rng.random() < 0.55 else "root"
+        plans[f"p{i}"] = {"parent": parent, "note": 0, "dropped": False}
+    sources = {}
+    for plan in plans:
+        for k in range(rng.randint(0, 2) if plan != "root" else 1):
+            sources[f"src/{plan}_{k}.txt"] = (plan, f"{plan} source {k} v0\n")
+    steps, outputs = [], []
+    for i in range(rng.randint(3, 7)):
+        plan = rng.choice(list(plans))
+        pool = sorted(sources) + outputs
+        inp = sorted(rng.sample(pool, rng.randint(1, min(2, len(pool)))))
+        out = f"out/t{i}.txt"
+        steps.append({"name": f"tool t{i}", "plan": plan, "inp": inp, "out": [out], "optional": rng.random() < 0.3})
+        outputs.append(out)
+    tree = PlanTree(plans, steps, sources)
+    if rng.random() < 0.4:
+        # An optional producer high up that is needed only by a consumer in a plan nested at least two
+        # levels below the root: dropping that plan must make the producer unneeded again.
+        deep = [p for p, info in plans.items() if info["parent"] not in (None, "root")]
+        if not deep:
+            parent = rng.choice([p for p in plans if p != "root"])
+            plans["pd"] = {"parent": parent, "note": 0, "dropped": False}
+            deep = ["pd"]
+        target = rng.choice(deep)
+        owner = rng.choice(["root", "root", plans[plans[target]["parent"]]["parent"] or "root"])
+        steps.append({"name": "tool opt", "plan": owner, "inp": [sorted(sources)[0]], "out": ["out/opt.txt"],
+                      "optional": True})
+        steps.append({"name": "tool use_opt", "plan": target, "inp": ["out/opt.txt"], "out": ["out/use_opt.txt"],
+                      "optional": False})
+        tree.motif = target
+    return tree
+
+
+TREE_MUTATIONS = ("touch_plan", "touch_plan", "edit_source", "edit_source", "drop_child", "readd_child",
+                  "toggle_optional")
+
+
+def mutate_plan_tree(rng, tree: PlanTree, kind: str | None = None) -> tuple[PlanTree, str]:
+    new = copy.deepcopy(tree)
+    kind = kind or rng.choice(TREE_MUTATIONS)
+    if kind == "touch_plan":
+        plan = rng.choice([p for p in new.plans if new.active(p)])
+        new.plans[plan]["note"] += 1
+        return new, f"touch_plan:{plan}"
+    if kind == "edit_source":
+        path = rng.choice(sorted(new.sources))
+        owner, content = new.sources[path]
+        head, _, version = content.rstrip("\n").rpartition(" v")
+        new.sources[path] = (owner, f"{head} v{int(version) + 1}\n")
+        return new, f"edit_source:{path}"
+    if kind == "drop_child":
+        candidates = [p for p, info in new.plans.items() if p != "root" and new.active(p)]
+        if not candidates:
+            return new, "none"
+        motif = getattr(new, "motif", None)
+        plan = motif if motif in candidates and rng.random() < 0.6 else rng.choice(candidates)
+        new.plans[plan]["dropped"] = True
+        return new, f"drop_child:{plan}"
+    if kind == "readd_child":
+        candidates = [p for p, info in new.plans.items() if info["dropped"] and new.active(info["parent"])]
+        if not candidates:
+            return new, "none"
+        plan = rng.choice(candidates)
+        new.plans[plan]["dropped"] = False
+        return new, f"readd_child:{plan}"
+    step = rng.choice(new.steps)
+    step["optional"] = not step["optional"]
+    return new, f"toggle_optional:{step['name']}"
+
+
+def gen_tree_history(rng, nphase=None):
+    """`(trees, events, mutations)`: build, then 1-3 phases of one mutation each and a build."""
+    tree = gen_plan_tree(rng)
+    trees, events, mutations = [tree], [("build", {"njob": rng.randint(1, 3)})], []
+    for _ in range(nphase or rng.randint(1, 3)):
+        old = trees[-1].render()
+        new, kind = mutate_plan_tree(rng, trees[-1])
+        import projgen
+
+        events.append(("edits", projgen._edits_between(old, new.render())))
+        events.append(("build", {"njob": rng.randint(1, 3)}))
+        trees.append(new)
+        mutations.append(kind)
+    return trees, events, mutations
